@@ -39,8 +39,7 @@ Verdict(o) ==
         impl == ImplContext(file, o.lineno, o.col)
         r == ImplShow(file, cnode, TRUE)
     IN IF o.code = "internal_error"
-       THEN IF slice = "decl" /\ Dev_HashExceptionInDisplay(cdecl, o) THEN "dev:hash-exception-in-literal-display"
-            ELSE IF Dev_ParamSpecSubstitution(f, o) THEN "dev:paramspec-substituted-by-non-signature"
+       THEN IF Dev_ParamSpecSubstitution(f, o) THEN "dev:paramspec-substituted-by-non-signature"
             ELSE "viol:InternalError"
        ELSE IF ~(o.code \in Codes) \/ o.msglen <= 0 THEN "viol:IllFormedDiagnostic"
        ELSE IF ~RefWellFormedPos(o, file)
